@@ -283,36 +283,33 @@ struct StorageResolver<'a, B, OC, SC, L> {
     storage: &'a Storage<B, OC, SC, L>,
     // loads in progress, per thread: a resolver may be shared between threads
     chain: Mutex<Vec<(std::thread::ThreadId, PlainRef)>>,
-    // loads started since the current outermost load of each thread began
-    work: Mutex<Vec<(std::thread::ThreadId, usize)>>,
+    // per thread: the references loaded since its current outermost load began, and how many loads repeated one of them
+    work: Mutex<HashMap<std::thread::ThreadId, (std::collections::HashSet<PlainRef>, usize)>>,
 }
 impl<'a, B, OC, SC, L> StorageResolver<'a, B, OC, SC, L> {
     pub fn new(storage: &'a Storage<B, OC, SC, L>) -> Self {
         StorageResolver {
             storage,
             chain: Mutex::new(vec![]),
-            work: Mutex::new(vec![])
+            work: Mutex::new(HashMap::new())
         }
     }
-    /// One more load on behalf of `thread`, whose outermost load is just beginning if `outermost`.
+    /// One more load, of `r`, on behalf of `thread`, whose outermost load is just beginning if `outermost`.
     /// Objects that name the next one twice through eagerly loaded entries multiply the work at every
-    /// level (2^n loads for n objects, more than any cache-less reader can do): the loads one call
-    /// may cause are bounded.
-    fn count_load(&self, thread: std::thread::ThreadId, outermost: bool) -> Result<()> {
+    /// level: 2^n loads for n objects. Large structures need many loads too, but of different objects;
+    /// what is bounded is the number of loads that repeat a reference already loaded for the same outermost load.
+    fn count_load(&self, thread: std::thread::ThreadId, r: PlainRef, outermost: bool) -> Result<()> {
         let mut work = self.work.lock().unwrap();
-        let i = match work.iter().position(|w| w.0 == thread) {
-            Some(i) => i,
-            None => {
-                work.push((thread, 0));
-                work.len() - 1
-            }
-        };
+        let (seen, repeats) = work.entry(thread).or_default();
         if outermost {
-            work[i].1 = 0;
+            seen.clear();
+            *repeats = 0;
         }
-        work[i].1 += 1;
-        if work[i].1 > MAX_LOADS_PER_CALL {
-            bail!("more than {} loads for one object", MAX_LOADS_PER_CALL);
+        if !seen.insert(r) {
+            *repeats += 1;
+            if *repeats > MAX_REPEATED_LOADS {
+                bail!("more than {} repeated loads for one object", MAX_REPEATED_LOADS);
+            }
         }
         Ok(())
     }
@@ -320,9 +317,9 @@ impl<'a, B, OC, SC, L> StorageResolver<'a, B, OC, SC, L> {
 
 /// loads one thread may have in progress at a time (a page tree sixteen levels deep needs about twenty)
 const MAX_NESTED_LOADS: usize = 64;
-/// loads that one outermost load may cause altogether. large structure trees and forms are loaded
-/// eagerly and need many; the bound only keeps fan-out from running for ever
-const MAX_LOADS_PER_CALL: usize = 1 << 20;
+/// loads that one outermost load may cause for references it has loaded already (a page named by
+/// each of its annotations is loaded again for every one of them by a document without object cache)
+const MAX_REPEATED_LOADS: usize = 1 << 16;
 
 struct Defer<F: FnMut()>(F);
 impl<F: FnMut()> Drop for Defer<F> {
@@ -376,7 +373,7 @@ where
             if nested >= MAX_NESTED_LOADS {
                 bail!("more than {} nested loads", MAX_NESTED_LOADS);
             }
-            self.count_load(entry.0, nested == 0)?;
+            self.count_load(entry.0, key, nested == 0)?;
             chain.push(entry);
             #[cfg(pdf_rs_pdf_verif)]
             crate::verif::hook("pushed", key.id);
@@ -442,7 +439,7 @@ where
             if nested >= MAX_NESTED_LOADS {
                 bail!("more than {} nested loads", MAX_NESTED_LOADS);
             }
-            self.count_load(entry.0, nested == 0)?;
+            self.count_load(entry.0, r, nested == 0)?;
             chain.push(entry);
             #[cfg(pdf_rs_pdf_verif)]
             crate::verif::hook("lpushed", r.id);
